@@ -15,7 +15,7 @@ TRUSTED = ['datetime.strptime enters the model as a Section variable valid_time 
 ASSUMPTIONS = ['world.testing/log.testing off; Python asserts enabled (no -O)']
 LEVEL_TEXT = ('Coq theorems over an executable Gallina model of ircmsgs.py (tag escaping, tag dict, string branch of IrcMsg.__init__, __str__): '
               'tag-value round trip for all strings, parse(serialize m) = norm m for all well-formed m (any tags, prefix, middles, arbitrary trailing), '
-              'parsing total on a decidable domain with a refuting witness outside it (finding F3); the model is tied to the source by a regenerated '
+              'parsing total for EVERY string (C05_parse_total: a value or MalformedIrcMsg, nothing else; finding F3 repaired); the model is tied to the source by a regenerated '
               'escape table / except-clause list and by a differential run (exhaustive short hostile lines + generated messages) against the real IrcMsg on every check.')
 LEVEL_NOTE = ('Trusted: Coq kernel, gen_tables.py, ExtrOcamlBasic extraction + OCaml driver, the Python harness; datetime.strptime is a Section '
               'variable (any function); Python code is modelled not verified; the re-serialisation clause is the _str cache (trivial in the model, checked directly on the implementation).')
@@ -65,28 +65,8 @@ def model_parse_pick(out, line):
     return r_true if (tv is not None and strptime_ok(tv)) else r_false
 
 
-def valueless_time(line):
-    """class predicate of finding F3: '@...' tag section carries a `time` tag without value"""
-    if not line.startswith('@'):
-        return False
-    sec = line[1:].split(' ', 1)[0]
-    d = {}
-    for tag in sec.split(';'):
-        if '=' in tag:
-            k, v = tag.split('=', 1)
-            d[k] = v if v != '' else None      # conservative: raw value emptiness
-        else:
-            d[tag] = None
-    if 'time' not in d:
-        return False
-    if d['time'] is None:
-        return True
-    # value that unescapes to '' (e.g. a lone backslash) also becomes None
-    ircmsgs = _ircmsgs()
-    return ircmsgs.unescape_server_tag_value(d['time']) == ''
-
-
-CLASSES = {'valueless_time_tag': lambda inp: inp.get('op') == 'parse' and valueless_time(inp['line'])}
+# no known findings: C05.F3 (valueless time tag -> TypeError) is repaired; its witness stays in CORPUS_LINES
+CLASSES = {}
 
 
 def check_line(ctx, ircmsgs, line, mout, kind):
